@@ -12,8 +12,9 @@ import struct
 from vlib import core, corr
 
 DEPENDS = ["RecBase", "Reno", "Cubic", "Pacer", "Recovery", "RecoveryFloat", "C08Consts", "RecoveryProofs",
-           "RenoProofs", "CubicProofs", "RangeSet", "Base", "Tok", "C08"]
-GENERATORS = ["c08_consts"]
+           "RenoProofs", "CubicProofs", "RangeSet", "Base", "Tok", "C08",
+           "Builder", "C13Consts", "BuilderProofs", "BuilderFlight", "FlightBudget"]
+GENERATORS = ["c08_consts", "c13_consts"]
 TRUSTED_BASE = [
     "vm_compute evaluation of the PrimFloat instance (coqc, no extraction); Coq's primitive floats = IEEE binary64 "
     "round-to-nearest-even, the same arithmetic CPython uses",
@@ -820,9 +821,11 @@ def bd_run(case):
 
 
 def bd_oracle(case):
-    """C08, last sentence, at the level where it is decided: apart from acknowledgement-only packets, one
-    builder session (= one datagrams_to_send call) adds at most max(max_flight_bytes, 0) in-flight bytes,
-    where QuicConnection sets max_flight_bytes = cwnd - bytes_in_flight (one datagram if a probe is pending)."""
+    """C08, last sentence, at the level where it is decided: one builder session (= one datagrams_to_send call) adds at
+    most max(max_flight_bytes, 0) in-flight bytes -- ALL packets marked in flight, acknowledgement-only ones included
+    (they are in flight only when padded, and the padding stays inside the flight capacity) -- where QuicConnection sets
+    max_flight_bytes = cwnd - bytes_in_flight (one datagram if a probe is pending).  No allowance for the sample-padding
+    byte (C08-F1, fixed by e93c691): budget + 1 is a violation."""
     if case["max_flight"] is None:
         return None
     try:
@@ -832,21 +835,18 @@ def bd_oracle(case):
     budget = max(case["max_flight"], 0)
     payload = case.pop("_payload", {})
     flight = 0
-    sample_padded = 0      # packets with a 1-byte payload get 1 byte of header-protection sample padding
     for p in packets:
         fr = frames.get(p.packet_number, [])
-        ack_only = all(k in BD_NON_IN_FLIGHT for k in fr)
-        if p.in_flight and not ack_only:
+        # only exemption (theorem flight_le_budget, clause 3 of the discipline): an ACK / CLOSE "frame" of a single byte,
+        # which no real frame writer produces, gets the header-protection sample padding and is then in flight
+        one_byte_ack = all(k in BD_NON_IN_FLIGHT for k in fr) and payload.get(p.packet_number) == 1
+        if p.in_flight and not one_byte_ack:
             flight += p.sent_bytes
-            if payload.get(p.packet_number) == 1:
-                sample_padded += 1
     if flight > budget:
-        over = flight - budget
-        cause = "sample_padding" if over <= sample_padded else "other"
-        return ("%d in-flight bytes were put on the wire while the budget (cwnd - bytes_in_flight) was %d (%s); packets: %s"
-                % (flight, case["max_flight"], cause,
+        return ("%d in-flight bytes were put on the wire while the budget (cwnd - bytes_in_flight) was %d; packets: %s"
+                % (flight, case["max_flight"],
                    [(p.packet_type.name, p.sent_bytes, int(p.in_flight), frames.get(p.packet_number)) for p in packets]),
-                {"rule": "flight_budget", "level": "builder", "cause": cause})
+                {"rule": "flight_budget", "level": "builder", "overshoot": flight - budget})
     if any(sz > case["mds"] for sz in sizes):
         return ("datagram larger than max_datagram_size", {"rule": "datagram_size"})
     return None
@@ -930,6 +930,177 @@ def _safe_bd(case):
         return False
 
 
+
+# ------------------------------------------------------------------------------------ builder MODEL tie (flight budget theorems)
+# The flight-budget theorems (coq/proofs/BuilderFlight.v, FlightBudget.v) are about C13's model of QuicPacketBuilder
+# (coq/model/Builder.v, extracted as exec_builder).  Its tie to the code is re-run here on flight-shaped histories:
+# C13's encoder / implementation driver (same observables: outcome, remaining_buffer_space, remaining_flight_space,
+# packet_is_empty, packet_number after every op; datagram lengths and packet metadata incl. in_flight / sent_bytes per
+# flush) with C08's own generator and C08's own oracle (the statement of flight_le_budget coded on the implementation).
+FL_NIF = (0x02, 0x03, 0x1C, 0x1D)          # NON_IN_FLIGHT_FRAME_TYPES
+
+
+def _c13():
+    from props import c13
+    return c13
+
+
+def _uvar_size(v):
+    v %= 1 << 64
+    return 1 if v < 64 else 2 if v < 16384 else 4 if v < (1 << 30) else 8 if v < (1 << 62) else None
+
+
+def fl_gen(rng, n):
+    """Builder histories shaped like one datagrams_to_send call (ACK / CLOSE first in a packet, in-flight frame bodies
+    sized with remaining_flight_space, QuicPacketBuilderStop ends the flight, one flush at the end), recorded as
+    concrete ops in C13's case format by driving the real builder.  A wild fraction breaks one of the three flight
+    clauses of the discipline (one-byte ACK, ACK after an in-flight frame, body sized with remaining_buffer_space)."""
+    c13 = _c13()
+    cases = []
+    for _ in range(n):
+        mds = rng.choice([1200, 1200, 1280, 1452, 1500])
+        ph = rng.choice([(8, 8), (8, 8), (0, 0), (20, 20), (8, 0)])
+        hdr1 = 3 + ph[0]
+        mf = rng.choice([None, 0, -50, 1, hdr1 + 16, hdr1 + 17, hdr1 + 18, hdr1 + 19, 45, 46, 100, 300, 600, 601, 1199, 1200, 1201,
+                         2000, 2400, 5000, 12000, rng.randint(0, 3000), rng.randint(0, 3000), rng.randint(0, 200)])
+        cfg = {"client": int(rng.random() < 0.5), "mds": mds, "peer": ph[0], "host": ph[1],
+               "token": rng.choice([0, 0, 0, 16, 80]), "mf": mf,
+               "mt": rng.choice([None, None, None, 3600, 1500, 900, rng.randint(100, 4000)]), "pn": rng.choice([0, 0, 7, 65535])}
+        wild = rng.random() < 0.2
+        b = c13._mk_builder(cfg)
+        crypto = c13._crypto(mds)
+        ops = []
+
+        def do(op):
+            code, _ = c13._b_apply(b, crypto, op)
+            ops.append(op)
+            return code
+        style = rng.choice(["handshake", "app", "mixed", "mixed"])
+        stopped = False
+        for _ in range(rng.randint(1, 6)):
+            if style == "handshake":
+                pt = rng.choice([0, 2, 5])
+            elif style == "app":
+                pt = 5
+            else:
+                pt = rng.choice([0, 2, 5, 5, 1])
+            if do(["sp", pt]) != 0:
+                break
+            if rng.random() < 0.5:       # non in-flight frames first, as _write_handshake / _write_application do
+                if do(["sf", rng.choice([2, 2, 2, 3, 0x1C, 0x1D]), rng.choice([1, 5, 20, 64])]) != 0:
+                    break
+                nb = max(0, min(rng.choice([4, 10, 30, 200, 1500]), b.remaining_buffer_space))
+                if wild and rng.random() < 0.4:
+                    nb = 0               # a one-byte ACK "frame" (clause 3)
+                if nb:
+                    do(["push", nb])
+            for _ in range(rng.choice([0, 1, 1, 2, 3])):
+                kind = rng.choice(["ping", "padding", "crypto", "stream", "stream", "crypto", "hsdone"])
+                if kind in ("ping", "padding", "hsdone"):
+                    ft, cap = {"ping": 1, "padding": 0, "hsdone": 0x1E}[kind], 1
+                    body = rng.choice([0, 0, 0, 3, 2000]) if kind == "padding" else 0
+                else:
+                    ft, cap = (6 if kind == "crypto" else rng.choice([8, 0x0A, 0x0F])), rng.choice([2, 10, 19, 100])
+                    body = rng.choice([0, 1, 50, 100, 600, 2000])
+                if do(["sf", ft, cap]) != 0:
+                    stopped = True
+                    break
+                room = b.remaining_flight_space
+                if wild and rng.random() < 0.3:
+                    room = b.remaining_buffer_space        # clause 2
+                nb = max(0, min(body, room))
+                if nb:
+                    do(["push", nb])
+                if wild and rng.random() < 0.25:           # clause 1: ACK after an in-flight frame
+                    if do(["sf", 2, 1]) == 0:
+                        nb = max(0, min(rng.choice([4, 200, 1500]), b.remaining_buffer_space))
+                        if nb:
+                            do(["push", nb])
+            if stopped:
+                break
+        do(["flush"])
+        cases.append({"cfg": cfg, "ops": ops})
+    return cases
+
+
+def _fl_eval(case):
+    """flight_le_budget coded on the real builder (public behaviour only; the discipline is recomputed here from the
+    ops and the public properties, independently of the model): in a history that respects the caller discipline
+    (C13's clauses + the three flight clauses) the sent_bytes of ALL packets with in_flight set sum up to at most
+    max(0, max_flight_bytes).  Also, empirically (not a theorem): without clause 3 (one-byte ACK-only packets allowed)
+    the same holds for the ack-eliciting in-flight packets; and every datagram is <= max_datagram_size.
+    Returns (violation or None, disciplined, clause 3 respected, in-flight bytes, in-flight packets)."""
+    c13 = _c13()
+    cfg = case["cfg"]
+    b = c13._mk_builder(cfg)
+    crypto = c13._crypto(cfg["mds"])
+    mf = cfg["mf"]
+    disc = disc3 = True           # clauses of C13 + flight clauses 1, 2 ; flight clause 3
+    in_packet = cur_inflight = False
+    payload = 0
+    flight = flight_ae = npk = 0
+    bad = None
+    for i, op in enumerate(case["ops"]):
+        k = op[0]
+        if k == "sf":
+            sz = _uvar_size(op[1])
+            if not in_packet or sz is None or sz > op[2]:
+                disc = False
+            if op[1] in FL_NIF and cur_inflight:
+                disc = False
+        elif k == "push":
+            try:
+                ok = in_packet and not b.packet_is_empty and 0 <= op[1] <= b.remaining_buffer_space
+                if ok and cur_inflight and op[1] > b.remaining_flight_space:
+                    ok = False
+            except (AssertionError, AttributeError):
+                ok = False
+            if not ok:
+                disc = False
+        elif k in ("sp", "flush"):
+            if in_packet and not cur_inflight and payload == 1:
+                disc3 = False
+        code, res = c13._b_apply(b, crypto, op)
+        if k == "sp":
+            in_packet = code == 0
+            cur_inflight = False
+            payload = 0
+        elif k == "sf" and code == 0:
+            payload += _uvar_size(op[1]) or 0
+            if op[1] not in FL_NIF:
+                cur_inflight = True
+        elif k == "push" and code == 0:
+            payload += op[1]
+        elif k == "flush":
+            in_packet = cur_inflight = False
+            payload = 0
+            if res is not None:
+                dgs, pkts = res
+                for d in dgs:
+                    if len(d) > cfg["mds"] and bad is None:
+                        bad = ("datagram of %d bytes, max_datagram_size %d" % (len(d), cfg["mds"]),
+                               {"rule": "datagram_size", "level": "builder"})
+                flight += sum(p.sent_bytes for p in pkts if p.in_flight)
+                flight_ae += sum(p.sent_bytes for p in pkts if p.in_flight and p.is_ack_eliciting)
+                npk += sum(1 for p in pkts if p.in_flight)
+        if bad is None and mf is not None and disc and ((disc3 and flight > max(0, mf)) or flight_ae > max(0, mf)):
+            bad = ("disciplined builder history put %d in-flight bytes (%d ack-eliciting) on the wire with max_flight_bytes = %d "
+                   "(= cwnd - bytes_in_flight) (op %d)" % (flight, flight_ae, mf, i),
+                   {"rule": "flight_budget", "level": "builder", "overshoot": max(flight if disc3 else 0, flight_ae) - max(0, mf)})
+    return bad, disc, disc3, flight, npk
+
+
+def fl_oracle(case):
+    return _fl_eval(case)[0]
+
+
+def flight_suite(ctx):
+    c13 = _c13()
+    return corr.Suite(ctx, "builderflight", "exec_builder", c13.b_encode, c13.b_impl, fl_oracle, _ops, _rebuild,
+                      nontrivial=lambda c, out: any(o[0] == "sf" for o in c["ops"]) and len(c["ops"]) >= 3,
+                      opname=lambda o: o[0])
+
+
 # ------------------------------------------------------------------------------------ driver
 def _ops(c):
     return c["ops"]
@@ -980,22 +1151,6 @@ def _tally(s, cases):
             h["some-packet-acked"] += 1
 
 
-# Finding of this check on the unchanged tree (docs/C08.md, finding F1; proposed repair docs/C08-fix-1.patch).
-# known_findings.json is a shared file that checks never write: until the entry below is added there (NEEDS in
-# docs/C08.md) it is registered in memory, so the violation is printed as KNOWN-FINDING on every run instead
-# of being hidden or loosened away.
-LOCAL_KNOWN_FINDINGS = [{
-    "id": "C08-F1-sample-padding-overshoots-flight-budget",
-    "property": "C08",
-    "status": "open",
-    "what": "QuicPacketBuilder: a packet whose payload is a single byte (PING / PADDING / HANDSHAKE_DONE only) gets one byte "
-            "of header-protection sample padding in _end_packet that start_frame did not reserve, so one datagrams_to_send "
-            "call can put max_flight_bytes + 1 in-flight bytes on the wire (e.g. cwnd - bytes_in_flight = 28, PING-only "
-            "1-RTT packet of 29 bytes); proposed repair docs/C08-fix-1.patch",
-    "match": {"rule": "flight_budget", "level": "builder", "cause": "sample_padding"},
-}]
-
-
 def run(ctx):
     import time
     s = suite(ctx)
@@ -1021,8 +1176,30 @@ def run(ctx):
     _tally(s, rnd[:300] + lng[:60])
     system = system_runs(ctx, ctx.n(24, 200))
     builder = builder_runs(ctx, ctx.n(4000, 60000))
+    # builder MODEL <-> QuicPacketBuilder on flight-shaped histories + the statement of flight_le_budget as oracle
+    fs = flight_suite(ctx)
+    fl_cases = corr.load_corpus("C08", fs.name) + fl_gen(rng, ctx.n(2500, 40000))
+    fl_hist = {"disciplined": 0, "one_byte_ack_only": 0, "undisciplined": 0, "with_budget": 0, "budget_below_datagram": 0,
+               "in_flight_packets": 0, "budget_exactly_used": 0}
+    for c in fl_cases:
+        _, disc, disc3, fl, npk = _fl_eval(c)
+        fl_hist["disciplined" if disc and disc3 else "one_byte_ack_only" if disc else "undisciplined"] += 1
+        fl_hist["in_flight_packets"] += npk
+        if c["cfg"]["mf"] is not None:
+            fl_hist["with_budget"] += 1
+            fl_hist["budget_below_datagram"] += int(c["cfg"]["mf"] < c["cfg"]["mds"])
+            fl_hist["budget_exactly_used"] += int(disc and fl == c["cfg"]["mf"] > 0)
+    try:
+        fs.run(fl_cases)
+    except core.BuildError as e:      # the builder model does not build against this tree: the oracle still runs
+        core.log("C08 builder model not runnable (%s): implementation oracle only" % (str(e)[:200],))
+        for c in fl_cases:
+            badc = fl_oracle(c)
+            if badc:
+                ctx.violation("impl-violation", "builderflight: " + badc[0], {"builderflight": c}, signature=badc[1])
+                break
     return corr.merge_coverage(
-        [s],
+        [s, fs],
         "op histories on the real QuicPacketRecovery (3 spaces, reno and cubic alternating): sends with all flag "
         "combinations, ack range sets with gaps / never-sent / already-acked / repeated numbers, loss timer and PTO "
         "firings at, after and before get_loss_detection_time, discards with packets in flight, reschedule_data, "
@@ -1030,6 +1207,7 @@ def run(ctx):
         "distinct = distinct model expression; non-trivial = at least one send followed by an ack/timeout/discard",
         {"exhaustive_small_scope": skipped < len(rnd) + len(lng) or skipped == 0, "exhaustive_cases": len(ex),
          "cases_skipped_by_time_guard": skipped, "system_tie": system, "builder_flight_budget": builder,
+         "builder_model_tie": fl_hist,
          "generated": {"exhaustive": len(ex), "random": len(rnd), "long": len(lng)}})
 
 
@@ -1042,6 +1220,14 @@ def replay(ctx, rep):
         return {"builder": {"oracle": bd_oracle(case["builder"]), "datagrams": sizes,
                             "packets": [(p.packet_type.name, p.packet_number, p.sent_bytes, int(p.in_flight),
                                          int(p.is_ack_eliciting), frames.get(p.packet_number)) for p in packets]}}
+    if isinstance(case, dict) and ("builderflight" in case or "cfg" in case):
+        c = case.get("builderflight", case)
+        fs = flight_suite(ctx)
+        try:
+            d, e, g = fs.disagree(c)
+        except Exception as ex:
+            d, e, g = None, None, repr(ex)
+        return {"builderflight": {"disagree": d, "impl": e, "model": g, "oracle": fl_oracle(c)}}
     if isinstance(case, dict) and "sim" in case:
         p = case["sim"]
         log, st = sim_run(p["seed"], p["cc"], p["loss"], p["nbytes"])
